@@ -621,7 +621,7 @@ def generate(write: bool = True) -> dict:
                 f"import SpoxModel.Generated.Constructors_{mid}\nimport SpoxModel.Generated.Schemas_{mid}\n",
                 (f"import SpoxModel.Generated.Conforms_{prev_ctor_mod[mid]}\n" if prev_ctor_mod[mid] else ""),
                 f"namespace Generated.Conforms.{mid}\nopen Conform\n\n"]
-        good, deviating = [], []
+        good, deviating, slot_thms = [], [], []
         ops = list(m.operators)
         for op in m.constructors:
             if op not in m.operators:
@@ -664,6 +664,13 @@ def generate(write: bool = True) -> dict:
             else:
                 cout.append(f"theorem {thm} : {stmt} := {proof}\n\n")
                 good.append((thm, entry))
+            # slotting obligation of the pair (inputs on every presence pattern, output arity)
+            sstmt = f"slotOK {entry} = true"
+            sthm = f"slots_{mid}_{lean_ident(op)}"
+            sproof = f"Generated.Conforms.{proved[sstmt]}" if sstmt in proved else "by decide +kernel"
+            proved.setdefault(sstmt, f"{mid}.{sthm}")
+            cout.append(f"theorem {sthm} : {sstmt} := {sproof}\n\n")
+            slot_thms.append((sthm, entry))
         cout.append("/-- every operator/module pair of this module without a listed deviation -/\n")
         cout.append("def table : List Entry :=\n  " + lean_list("\n   " + e for _, e in good) + "\n\n")
         proof = "List.all_nil"
@@ -678,6 +685,16 @@ def generate(write: bool = True) -> dict:
         cout.append(
             "theorem table_conforms : ∀ e ∈ table, entryOK e = true :=\n"
             "  fun e he => List.all_eq_true.mp table_all e he\n\n"
+        )
+        cout.append("/-- every operator/module pair of this module (deviating ones included: deviations concern attributes) -/\n")
+        cout.append("def allEntries : List Entry :=\n  " + lean_list("\n   " + e for _, e in slot_thms) + "\n\n")
+        cout.append(
+            "theorem slots_all : allEntries.all slotOK = true :=\n  "
+            + "\n  ".join(f"all_cons {t} (" for t, _ in slot_thms) + "\n  all_nil" + ")" * len(slot_thms) + "\n\n"
+        )
+        cout.append(
+            "theorem table_slots : ∀ e ∈ allEntries, slotOK e = true :=\n"
+            "  fun e he => List.all_eq_true.mp slots_all e he\n\n"
         )
         cout.append("/-- pairs with listed deviations (known findings), each with what is excepted -/\n")
         cout.append("def deviating : List (List String × Entry) :=\n  " + lean_list("\n   " + e for _, e in deviating) + "\n\n")
